@@ -393,5 +393,28 @@ PROPS["C10"] = {
     "shrink": False,
 }
 
+PROPS["C18"] = {
+    "id": "C18",
+    "lean_modules": ["JT.Props.C18", "JT.Props.C06"],
+    "extractors": ["fieldaccess"],
+    "race_server": True,
+    "functional_ops": ["race"],
+    "rule": ("a server subprocess built with Go's race detector (GORACE halt_on_error=0, reports collected from its log), three variants (default handlers; 1 ms slow write callback; README-style parse-all handlers); "
+             "12 (thorough: 16) client workers in parallel, 12 (60) rounds each, every round one connection with a random mix of: bursts of heartbeats/location reports, sub-packaged transfers (complete and incomplete), platform commands issued by caller goroutines with time-outs "
+             "30 ms..3 s, answers to the command frames that arrived, answers nobody waits for, pauses; 10% of the rounds use a neighbour's phone (duplicate key refused); the round ends by close, reset, a frame that fails to parse while replies are in flight, or a delayed close. "
+             "non-trivial = every run (thousands of frames and hundreds of commands per run)."),
+    "technique": "Lean 4 proof of two race-exclusion disciplines — the field-access partition of `connection` REGENERATED from the source by a go/ast extractor (kernel-evaluated), and single ownership of every *Message over all interleavings of the reader/channel/writer transition system — + execution of concurrent scenario sets under Go's race detector",
+    "level_text": ("Machine-checked Lean 4 theorems: (1) over the table of field accesses per goroutine role regenerated from service/*.go on every run: no field of `connection` is written by one role and touched by another, timer goroutines write nothing, hence any two conflicting accesses are made by one goroutine; "
+                   "the reader never mentions a message after sending it into a channel; (2) over ALL interleavings of the reader/msgChan/writer transition system (any capacity): while the reader holds a message it is neither queued nor with the writer and the writer has not touched it; once the writer has touched it the reader no longer holds it and all reader accesses are in the past. "
+                   "Partial: that these abstractions cover every memory access of the compiled program (callbacks, session manager, header sharing, the runtime) is NOT proved; it is decided by running the concurrent scenario sets under the race detector on every run — a dynamic observation, as the property's own observation point prescribes."),
+    "level_note": "Trusted: Lean kernel; fieldaccess extractor (roles = reader/write/go-func literals; what counts as a write); Go's race detector for the executed schedules; harness.",
+    "trusted_base": [KERNEL, AXIOMS, HARNESS, _SOCK_TB[3],
+                     "extractor harness/cmd/extract/fieldaccess.go: methods reachable from reader()/write() through c.<method>() calls, `go func` literals as timer role; writes = assignment / ++ / delete / clear / address-of; channel operations and method calls on a field value are reads of the field",
+                     "Go race detector (happens-before over the schedules that actually ran; not a proof of absence)",
+                     "not modelled: user callbacks, session-manager internals, the shared *Header between the registry and the first message (exercised by the detector runs only)"],
+    "assumptions": ["reader and writer are one goroutine each per connection (Start)", "channels, sync.Once and net.Conn are safe for concurrent use"],
+    "shrink": False,
+}
+
 # properties that are not claimed, with the reason (anything not listed and not in PROPS gets a generic "not built yet")
 NOT_APPLICABLE = {}
